@@ -634,6 +634,19 @@ func (s *backendSuite) do(t []string) string {
 		s.c.mu.Unlock()
 		klog.SetLogFilter(logGate{c: s.c})
 		return "logarm ok"
+	case "getdelay":
+		s.c.mu.Lock()
+		s.c.getDelay = time.Duration(atoi(pos[1])) * time.Millisecond
+		s.c.mu.Unlock()
+		return "getdelay ok"
+	case "iterslow":
+		// iterslow <ms> from=<hex>: every Next of an iterator whose start key is <hex> takes <ms> (a slow partition);
+		// iterslow 0 clears it
+		s.c.mu.Lock()
+		s.c.iterSlow = time.Duration(atoi(pos[1])) * time.Millisecond
+		s.c.iterSlowKey = unhx(opts["from"])
+		s.c.mu.Unlock()
+		return "iterslow ok"
 	case "getfault":
 		// getfault: the next point Get the engine sees fails once with a transient error (for a range read, count
 		// or stream that is the read of the compaction record)
